@@ -31,7 +31,7 @@ def case_strategy():
     return st.fixed_dictionaries({
         'pva': gen.pva_strategy(max_lat=85.0, max_pitch=85.0),
         'cls': st.sampled_from(['Position', 'NedVelocity', 'BodyVelocity']),
-        'lever': st.sampled_from(['none', 'zero', 'arm', 'arm']),
+        'lever': st.sampled_from(['none', 'zero', 'arm', 'arm', 'arm_int', 'arm_list']),       # array_like: also whole-number arms as an integer array or a list of ints
         'rates': st.sampled_from([True, True, False]),
         'with_altitude': st.booleans(),
         'meas_err': st.lists(st.floats(-1, 1), min_size=3, max_size=3),
@@ -47,7 +47,13 @@ def build(case):
     if not case['with_altitude']:
         pva['VD'] = 0.0
     rates = rng.uniform(-1, 1, 3) if case['rates'] else None
-    arm = {'none': None, 'zero': np.zeros(3), 'arm': rng.uniform(-5, 5, 3)}[case['lever']]
+    arm = {'none': None, 'zero': np.zeros(3), 'arm': rng.uniform(-5, 5, 3), 'arm_int': rng.uniform(-5, 5, 3), 'arm_list': rng.uniform(-5, 5, 3)}[case['lever']]
+    arm_arg = arm
+    if case['lever'] in ('arm_int', 'arm_list'):
+        arm = np.rint(arm) + 0.0
+        if not arm.any():
+            arm[0] = 2.0
+        arm_arg = arm.astype(np.int64) if case['lever'] == 'arm_int' else [int(v) for v in arm]
     sd = float(10 ** rng.uniform(-2, 1))
     e = np.asarray(case['meas_err'], float)
     C = np.asarray(ROT.dcm_from_rph(pva[EC.RPH].values.astype(float)), float)
@@ -59,13 +65,13 @@ def build(case):
         rows = [transform.perturb_lla(lla_true, rng.randn(3) * 50), meas, transform.perturb_lla(lla_true, rng.randn(3) * 50)]
         data = pd.DataFrame(rows, index=times, columns=['lat', 'lon', 'alt'])
         data['extra'] = 1.0
-        m = measurements.Position(data, sd, arm)
+        m = measurements.Position(data, sd, arm_arg)
     elif case['cls'] == 'NedVelocity':
         e = e * 2.0
         meas = pva[EC.VEL].values.astype(float) + e
         data = pd.DataFrame([meas + rng.randn(3), meas, meas + rng.randn(3)], index=times, columns=['VN', 'VE', 'VD'])
         data.insert(0, 'junk', 5.0)
-        m = measurements.NedVelocity(data, sd, arm)
+        m = measurements.NedVelocity(data, sd, arm_arg)
     else:
         e = e * 2.0
         meas = C.T @ pva[EC.VEL].values.astype(float) + e
@@ -201,7 +207,8 @@ def run_simulator(case, ctx):
         site = traj
     genf = {'Position': sim.generate_position_measurements, 'NedVelocity': sim.generate_ned_velocity_measurements,
             'BodyVelocity': sim.generate_body_velocity_measurements}[case['cls']]
-    mk = {'Position': lambda d: measurements.Position(d, sd, arm), 'NedVelocity': lambda d: measurements.NedVelocity(d, sd, arm),
+    arm_arg = getattr(m, 'imu_to_antenna_b', None)        # the lever arm in the form it was handed over (float / int array, list)
+    mk = {'Position': lambda d: measurements.Position(d, sd, arm_arg), 'NedVelocity': lambda d: measurements.NedVelocity(d, sd, arm_arg),
           'BodyVelocity': lambda d: measurements.BodyVelocity(d, sd)}[case['cls']]
     larm = 0.0 if arm is None else np.linalg.norm(arm)
     V = np.linalg.norm(pva[EC.VEL].values.astype(float))
